@@ -4,7 +4,7 @@ package main
 // sfilesys.go that Model/SessLock.v transcribes by hand.  For each function, in
 // source order, the tokens
 //
-//	if{ … }  else{ … }          branch structure (condition tokens come first)
+//	if{ … }  else{ … }  for{ … } branch / loop structure (condition tokens come first)
 //	return                      a return statement
 //	defer-unlock:X              defer X.Unlock()
 //	defer{ … }                  defer func() { … }()
@@ -19,7 +19,7 @@ package main
 // proves the two equal by reflexivity: ANY edit that adds a return, moves a defer,
 // adds or reorders a table/lock/FileSys action or an SFid field access changes this
 // file and breaks that proof obligation until the model has been re-transcribed.
-// Statement kinds that do not occur in these functions today (for, switch, select,
+// Statement kinds that do not occur in these functions today (range, switch, select,
 // go, goto, labels) are not guessed at: they become an UNRECOGNISED token, which breaks the equality.
 
 import (
@@ -32,7 +32,7 @@ import (
 func init() { register("GenSessLock.v", genSessLock) }
 
 var sessLockFuncs = []struct{ recv, name string }{
-	{"session", "getRef"}, {"SFid", "link"}, {"session", "newRef"}, {"session", "delRef"}, {"", "delRefAction"},
+	{"session", "Stop"}, {"session", "getRef"}, {"SFid", "link"}, {"session", "newRef"}, {"session", "delRef"}, {"", "delRefAction"},
 	{"session", "Auth"}, {"session", "Attach"}, {"session", "Clunk"}, {"session", "Remove"}, {"session", "Walk"},
 	{"session", "Read"}, {"session", "Write"}, {"session", "Open"}, {"", "openLocked"}, {"session", "Create"},
 	{"session", "Stat"}, {"session", "WStat"},
@@ -107,6 +107,8 @@ func (s *skel) call(x *ast.CallExpr) {
 			s.emit("lock:" + exprName(f.X))
 		case m == "Unlock" && recvT == "SFid":
 			s.emit("unlock:" + exprName(f.X))
+		case recvT == "SFid" && !sessLockHelpers[m]:
+			s.emit("sfid:" + m + ":" + exprName(f.X)) // any other method of the embedded mutex (TryLock, ...)
 		case recvT == "Map":
 			s.emit("refs:" + m)
 		case sessLockIfaces[recvT]:
@@ -246,6 +248,17 @@ func (s *skel) stmt(st ast.Stmt) {
 		} else {
 			s.fail(x, "defer of something other than X.Unlock() or a function literal")
 		}
+	case *ast.ForStmt:
+		if x.Init != nil {
+			s.stmt(x.Init)
+		}
+		s.expr(x.Cond, false)
+		s.emit("for{")
+		s.block(x.Body)
+		if x.Post != nil {
+			s.stmt(x.Post)
+		}
+		s.emit("}")
 	case *ast.IncDecStmt:
 		s.expr(x.X, true)
 	case *ast.EmptyStmt:
